@@ -146,14 +146,14 @@ func init() {
 	analyticNames = sortedNames(query.AnalyticFunctions)
 }
 
-// Known genuine defect (reported): a ROWS frame offset is not clamped to the
+// Genuine defect found by this check, FIXED in /repo (d297a33): a ROWS frame offset was not clamped to the
 // partition. windowValues (lib/query/analytic_function.go) allocates
 // High-Low+1 values and walks every index between them, so `ROWS 200000000
 // PRECEDING` over a one-row table needs 3 GB and int64-max never ends. The
 // generator keeps frame offsets small so that the search continues (and the
 // machine survives); set to false to reproduce (signature
 // window_frame_offset_unclamped).
-const avoidKnownFrameOffsetUnclamped = true
+const avoidKnownFrameOffsetUnclamped = false
 
 var frameInts = []string{"0", "1", "2", "3", "100"}
 
@@ -202,7 +202,7 @@ func drawArity(t *rapid.T, key string, anyWeights []int) int {
 
 func init() {
 	if !avoidKnownFrameOffsetUnclamped {
-		frameInts = append(frameInts, "200000000")
+		frameInts = append(frameInts, "200000000", "9223372036854775807")
 	}
 }
 
@@ -242,7 +242,9 @@ func genOver(t *rapid.T, windowing bool) string {
 	return "OVER (" + strings.Join(parts, " ") + ")"
 }
 
-// knownShape is a genuine csvq defect this check has found and reported: the
+// knownShape is a genuine csvq defect this check has found; all of them are
+// FIXED in /repo (rand e830292, json_value 8ca43eb, limit_percent 1f44dc9,
+// substring 86e8534, pad c07424e), so avoidKnownShapes is false. Each entry holds the
 // signature it is reported under and the program shapes that hit it. While
 // avoidKnownShapes is true the generator re-draws a case of such a shape so
 // that the search continues past it; set it to false to reproduce them all.
@@ -252,7 +254,7 @@ type knownShape struct {
 	match func(c progCase) bool
 }
 
-const avoidKnownShapes = true
+const avoidKnownShapes = false
 
 func argIn(c progCase, i int, classes ...string) bool {
 	if i >= len(c.Args) {
